@@ -134,7 +134,7 @@ class Ctx:
         rec = {"property": self.prop, "kind": kind, "alg": alg, "case": plain(case), "witness": plain(witness)}
         rec["hashseed"] = int(os.environ.get("PYTHONHASHSEED", "0") or 0)
         if OBJ_STATE["last_fresh"]:
-            rec["objective_not_the_singleton"] = True
+            rec["objective_not_the_singleton"] = True         # informational: derived from the case itself, so a replay makes the same choice
         if getattr(self, "debug_logging", False):
             rec["debug_logging"] = True       # the shard ran with DEBUG logging on (rv/worker.py); the replay switches it on again
         # every violation is classified here, so that capping the recorded ones per class can never hide a new one
@@ -364,15 +364,15 @@ class Algos:
             "PartitionAndSumsTuple": p.out.PartitionAndSumsTuple, "PartitionAndSums": p.out.PartitionAndSums,
         }
 
-    def objective(self, name, kparam=None, weights=None):
+    def objective(self, name, kparam=None, weights=None, case=None):
         o = self.obj
         if name in ("maxmin", "minmax", "diff"):
-            # the library offers these three as module-level instances; every third request gets an EQUAL BUT NOT IDENTICAL instance instead (a deep copy - what a pickle
-            # round trip, a multiprocessing worker or `obj.MinimizeTheDifference()` gives the user): code that recognises objectives by identity must still be right for them.
-            # The choice is stored in every violation record (Ctx.violation) and restored on replay (OBJ_STATE["force"]).
+            # the library offers these three as module-level instances; for a third of the CASES the call gets an EQUAL BUT NOT IDENTICAL instance instead (a deep copy - what
+            # a pickle round trip, a multiprocessing worker or `obj.MinimizeTheDifference()` gives the user): code that recognises objectives by identity must still be right
+            # for them. The choice is a function of the case (its digest), so that every call made for one case - all output types, repetitions, fresh-state references,
+            # replays - gets the same kind of object: they are "the same call".
             single = {"maxmin": o.MaximizeSmallestSum, "minmax": o.MinimizeLargestSum, "diff": o.MinimizeDifference}[name]
-            OBJ_STATE["calls"] += 1
-            fresh = OBJ_STATE["force"] if OBJ_STATE["force"] is not None else (OBJ_STATE["calls"] % 3 == 0)
+            fresh = case is not None and h64(json.dumps(["objective-kind", plain(case.get("values")), case.get("k"), case.get("alg"), plain(case.get("objective")), case.get("cg_mask")], default=str)) % 3 == 0
             OBJ_STATE["last_fresh"] = bool(fresh)
             return copy.deepcopy(single) if fresh else single
         if name == "ksmall": return o.MaximizeKSmallestSums(kparam)
@@ -381,7 +381,7 @@ class Algos:
         raise KeyError(name)
 
 
-OBJ_STATE = {"calls": 0, "last_fresh": False, "force": None}
+OBJ_STATE = {"last_fresh": False}
 
 
 CG_SWITCHES = ("use_lower_bound", "use_fast_lower_bound", "use_heuristic_3", "use_set_of_seen_states")
